@@ -8,7 +8,6 @@ package main
 // is only a candidate (the full quantified query is then also tried, and counterexamples are replayed).
 
 import (
-	"sort"
 	"strings"
 )
 
@@ -77,17 +76,35 @@ func (f *TF) skolemize(t *Term, pos bool, qm map[*Term]bool, skolems *[]*Term) *
 type idxPattern struct {
 	base *Term // nil: the bound variable itself is the index
 	arr  *Sort // sort of the indexed array
+	root []*Term
+}
+
+// arrayRoots: the base arrays below store chains / ite merges of an array term.
+func arrayRoots(a *Term, out map[*Term]bool, depth int) {
+	for a.Op == "store" {
+		a = a.Args[0]
+	}
+	if a.Op == "ite" && depth < 6 {
+		arrayRoots(a.Args[1], out, depth+1)
+		arrayRoots(a.Args[2], out, depth+1)
+		return
+	}
+	out[a] = true
+}
+
+func rootsOf(a *Term) []*Term {
+	m := map[*Term]bool{}
+	arrayRoots(a, m, 0)
+	var out []*Term
+	for r := range m {
+		out = append(out, r)
+	}
+	return out
 }
 
 // collect index patterns of bound var b in body, and ground index terms.
 func collectPatterns(body *Term, b *Term) []idxPattern {
 	var out []idxPattern
-	type bk struct {
-		b *Term
-		s *Sort
-	}
-	seenBase := map[bk]bool{}
-	selfS := map[*Sort]bool{}
 	seen := map[*Term]bool{}
 	var rec func(t *Term)
 	rec = func(t *Term) {
@@ -99,21 +116,12 @@ func collectPatterns(body *Term, b *Term) []idxPattern {
 			ix := t.Args[1]
 			as := t.Args[0].S
 			if ix == b {
-				if !selfS[as] {
-					selfS[as] = true
-					out = append(out, idxPattern{arr: as})
-				}
+				out = append(out, idxPattern{arr: as, root: rootsOf(t.Args[0])})
 			} else if ix.Op == "bvadd" && len(ix.Args) == 2 {
 				if ix.Args[1] == b && !containsVar(ix.Args[0], b) {
-					if !seenBase[bk{ix.Args[0], as}] {
-						seenBase[bk{ix.Args[0], as}] = true
-						out = append(out, idxPattern{base: ix.Args[0], arr: as})
-					}
+					out = append(out, idxPattern{base: ix.Args[0], arr: as, root: rootsOf(t.Args[0])})
 				} else if ix.Args[0] == b && !containsVar(ix.Args[1], b) {
-					if !seenBase[bk{ix.Args[1], as}] {
-						seenBase[bk{ix.Args[1], as}] = true
-						out = append(out, idxPattern{base: ix.Args[1], arr: as})
-					}
+					out = append(out, idxPattern{base: ix.Args[1], arr: as, root: rootsOf(t.Args[0])})
 				} else if ix.Args[0].Op == "bvadd" && len(ix.Args[0].Args) == 2 && ix.Args[0].Args[1] == b && ix.Args[1].Op == "bv" {
 					// (base + i) + c
 					base := ix.Args[0].Args[0]
@@ -167,16 +175,24 @@ func containsBound(t *Term, memo map[*Term]bool) bool {
 	return r
 }
 
-// groundIndexTerms: ground terms used as select/store indices, by the sort of the indexed array (and, under the nil
-// key... by index sort for patterns without an array).
-func groundIndexTerms(asserts []*Term) map[*Sort][]*Term {
-	out := map[*Sort][]*Term{}
+// groundIndexTerms: ground terms used as select/store indices, by the root of the indexed array and by its sort.
+type groundIdx struct {
+	byRoot map[*Term][]*Term
+	bySort map[*Sort][]*Term
+}
+
+func groundIndexTerms(asserts []*Term) *groundIdx {
+	out := &groundIdx{byRoot: map[*Term][]*Term{}, bySort: map[*Sort][]*Term{}}
 	seen := map[*Term]bool{}
 	type hk struct {
 		t *Term
 		s *Sort
 	}
+	type rk struct {
+		t, r *Term
+	}
 	have := map[hk]bool{}
+	haveR := map[rk]bool{}
 	bm := map[*Term]bool{}
 	var rec func(t *Term)
 	rec = func(t *Term) {
@@ -186,15 +202,17 @@ func groundIndexTerms(asserts []*Term) map[*Sort][]*Term {
 		seen[t] = true
 		if (t.Op == "select" || t.Op == "store") && len(t.Args) >= 2 {
 			ix := t.Args[1]
-			if !containsBound(ix, bm) {
+			if !containsBound(ix, bm) && !containsBound(t.Args[0], bm) {
 				as := t.Args[0].S
 				if !have[hk{ix, as}] {
 					have[hk{ix, as}] = true
-					out[as] = append(out[as], ix)
+					out.bySort[as] = append(out.bySort[as], ix)
 				}
-				if !have[hk{ix, ix.S}] {
-					have[hk{ix, ix.S}] = true
-					out[ix.S] = append(out[ix.S], ix)
+				for _, r := range rootsOf(t.Args[0]) {
+					if !haveR[rk{ix, r}] {
+						haveR[rk{ix, r}] = true
+						out.byRoot[r] = append(out.byRoot[r], ix)
+					}
 				}
 			}
 		}
@@ -202,16 +220,17 @@ func groundIndexTerms(asserts []*Term) map[*Sort][]*Term {
 			rec(a)
 		}
 	}
-	for _, a := range asserts {
-		rec(a)
+	// the goal is the last assertion: its index terms come first (they survive the instance cap)
+	for i := len(asserts) - 1; i >= 0; i-- {
+		rec(asserts[i])
 	}
 	return out
 }
 
-const maxInst = 32
+const maxInst = 80
 
 // instantiate replaces positive universals by finite conjunctions of instances.
-func (f *TF) instantiate(t *Term, pos bool, qm map[*Term]bool, ground map[*Sort][]*Term, skolems []*Term, left *bool) *Term {
+func (f *TF) instantiate(t *Term, pos bool, qm map[*Term]bool, ground *groundIdx, skolems []*Term, left *bool) *Term {
 	if !hasQuant(t, qm) {
 		return t
 	}
@@ -253,25 +272,33 @@ func (f *TF) instantiate(t *Term, pos bool, qm map[*Term]bool, ground map[*Sort]
 		for _, sk := range skolems {
 			add(sk)
 		}
-		for _, p := range pats {
-			key := p.arr
-			if key == nil {
-				key = b.S
+		// first pass: indices used on arrays with the same root as the pattern's array; second pass: same array sort
+		for pass := 0; pass < 2; pass++ {
+			for _, p := range pats {
+				var gs []*Term
+				if pass == 0 {
+					for _, r := range p.root {
+						gs = append(gs, ground.byRoot[r]...)
+					}
+				} else if p.arr != nil {
+					gs = ground.bySort[p.arr]
+				}
+				for _, g := range gs {
+					if g.S != b.S {
+						continue
+					}
+					if p.base == nil {
+						add(g)
+					} else if g.S.K == KBV {
+						add(f.Sub(g, p.base))
+					}
+				}
 			}
-			for _, g := range ground[key] {
-				if g.S != b.S {
-					continue
-				}
-				if p.base == nil {
-					add(g)
-				} else if g.S.K == KBV {
-					add(f.Sub(g, p.base))
-				}
+			if len(order) >= maxInst {
+				break
 			}
 		}
 		if len(order) > maxInst {
-			// prefer small terms (constants, skolems, simple offsets)
-			sort.SliceStable(order, func(i, j int) bool { return termSize(order[i], 6) < termSize(order[j], 6) })
 			order = order[:maxInst]
 		}
 		var insts []*Term
